@@ -552,5 +552,24 @@ func init() {
 					}
 				}
 			}, newCPUEnv, c02Check)
+		// stores observed through a location where ANY write has an effect (DIV is cleared): an instruction that must
+		// write to its addressed location has to do so even when the value stored equals the value already there
+		explore.Product(c.R, "stores-observed-through-DIV", explore.PartOpt{Bound: "single instruction", Domain: "every opcode x 4 pointer placements aiming BC / DE / HL / nn, FF00+n, FF00+C at FF04 x flags {00,F0} x DIV before = {40, FF, 01}"},
+			func(yield func(c03Div) bool) {
+				for op := 0; op < 512; op++ {
+					if op < 256 && (ref.UndefinedOpcodes[uint8(op)] || op == 0xcb || op == 0x76 || op == 0x10) {
+						continue
+					}
+					for _, p := range []uint16{0xff04, 0xff00, 0xfefc, 0xfee4} {
+						for _, fl := range []uint8{0x00, 0xf0} {
+							for _, cnt := range []uint16{0x4000, 0xff00, 0x0100} {
+								if !yield(c03Div{Effect: true, Op: op, Ptr: p, Flags: fl, Counter: cnt}) {
+									return
+								}
+							}
+						}
+					}
+				}
+			}, newCPUEnv, c03DivCheck)
 	})
 }
